@@ -189,10 +189,10 @@ type Thread struct {
 }
 
 type PointRec struct {
-	Thread  int   // thread that was running when the point was reached
-	Kind    Kind  // what that thread was about to do
-	Enabled []int // candidate ids in canonical order (running first if enabled, then ascending, TimeID last)
-	Chosen  int   // index into Enabled
+	Thread         int   // thread that was running when the point was reached
+	Kind           Kind  // what that thread was about to do
+	Enabled        []int // candidate ids in canonical order (running first if enabled, then ascending, TimeID last)
+	Chosen         int   // index into Enabled
 	RunningEnabled bool
 }
 
